@@ -225,6 +225,7 @@ type SrvOpts struct {
 }
 
 type Sess struct {
+	outer net.Listener // what Serve accepts from (wrappers included)
 	ln    *Listener
 	done  chan error
 	conns []*Conn
@@ -266,7 +267,7 @@ func startSrv(o SrvOpts) *Sess {
 	if o.LnWrap != nil {
 		l = o.LnWrap(l)
 	}
-	ss := &Sess{ln: ln, done: make(chan error, 1), h: h}
+	ss := &Sess{ln: ln, outer: l, done: make(chan error, 1), h: h}
 	go func() { ss.done <- s.Serve(l) }()
 	return ss
 }
@@ -296,6 +297,9 @@ func (s *Sess) Exchange(c *Conn, b []byte) (resp []byte, closed bool) {
 func (s *Sess) Shutdown() {
 	for _, c := range s.conns {
 		c.Fin()
+	}
+	if s.outer != nil {
+		s.outer.Close()
 	}
 	s.ln.Close()
 	synctest.Wait()
